@@ -356,7 +356,8 @@ class CFG:
                 if r is None:
                     out.append(hid)
             if exc is None:
-                if not any(self.exc.handler_catches(h, BaseException) for h, _ in handler_entries):
+                # an exception of unknown type is taken to be an Exception (not KeyboardInterrupt / SystemExit): `except Exception` contains it
+                if not any(self.exc.handler_catches(h, Exception) for h, _ in handler_entries):
                     out.extend(outer_raise(None))
             else:
                 out.extend(outer_raise(exc))
